@@ -405,5 +405,215 @@ theorem stochApp_field (hn : StochNames nm) (full fld : String) (hs : splitDot f
 
 end cand
 
+/-! ### one step of the node inside the series -/
+
+theorem nested_k2 (st : Num K) (ks : Scalar K) :
+    (sdict [("stoch", sc st), ("k", ks)] : Val K).nested "k" = .s ks := by
+  simp [Val.nested, sdict, dlookup]
+
+theorem toScalar_s (a : Scalar K) : Val.toScalar (Val.s a : Val K) = .ok a := by
+  cases a <;> rfl
+
+/-- **the node's step at index `m`**: if the finished prefix carries the rows `stRow 0 … stRow (m−1)`,
+the value computed for candle `m` is `stRow m` -/
+theorem stoch_step (p sk sl : Nat) (hp : 2 ≤ p) (hsk : 1 ≤ sk) (hsl : 1 ≤ sl) (nm input : String)
+    (fld : Candle K → Num K) (n : Nat) (hn : StochNames nm) (hin : NoDot input ∧ input ∈ Candle.attrNames)
+    (hattr : ∀ c : Candle K, c.attr input = some (.num (fld c)))
+    (raw : List (Candle K)) (hraw : ∀ c ∈ raw, Plain c) (m : Nat) (hm : m < raw.length)
+    (done : List (Candle K)) (hdl : done.length = m)
+    (hdone : ∀ j, j < m → done[j]? = some (stochApp nm n
+      (stRow p sk sl (fieldAt (·.l) raw) (fieldAt (·.h) raw) (fieldAt fld raw) j) (raw.getD j default))) :
+    stochVal nm (p : Int) (sl : Int) (sk : Int) input done (raw.getD m default)
+      = .ok (stRow p sk sl (fieldAt (·.l) raw) (fieldAt (·.h) raw) (fieldAt fld raw) m) := by
+  have hpl : ∀ j, j < raw.length → Plain (raw.getD j default) := fun j hj => getD_plain raw hraw j hj
+  have hc := hpl m hm
+  generalize hcd : raw.getD m default = c at hc
+  -- the candles of any context of the step
+  have hgl : ∀ (c' : Candle K) (j : Nat), j < m → (done ++ [c'])[j]? = some (stochApp nm n
+      (stRow p sk sl (fieldAt (·.l) raw) (fieldAt (·.h) raw) (fieldAt fld raw) j) (raw.getD j default)) := by
+    intro c' j hj
+    rw [List.getElem?_append_left (by omega)]
+    exact hdone j hj
+  have hgm : ∀ (c' : Candle K), (done ++ [c'])[m]? = some c' := by
+    intro c'
+    rw [List.getElem?_append_right (by omega), hdl]; simp
+  have hrd : ∀ (c' : Candle K) (name' key : String) (j : Nat), j < m →
+      ({ cs := done ++ [c'], i := done.length, name := name' } : Ctx K).reading key (some (j : Int))
+        = .ok (readingByCandle (stochApp nm n
+          (stRow p sk sl (fieldAt (·.l) raw) (fieldAt (·.h) raw) (fieldAt fld raw) j) (raw.getD j default)) key) :=
+    fun c' name' key j hj => Ctx.reading_at _ key j _ (hgl c' j hj)
+  have hrm : ∀ (c' : Candle K) (name' key : String),
+      ({ cs := done ++ [c'], i := done.length, name := name' } : Ctx K).reading key (some (m : Int))
+        = .ok (readingByCandle c' key) :=
+    fun c' name' key => Ctx.reading_at _ key m _ (hgm c')
+  have hlen : ∀ c' : Candle K, (done ++ [c']).length = m + 1 := by intro c'; simp [hdl]
+  have hiI : ((done.length : Nat) : Int) = (m : Int) := by rw [hdl]
+  have hlast : ∀ key, Ctx.lastReading key done = if m = 0 then Val.none else
+      readingByCandle (stochApp nm n
+        (stRow p sk sl (fieldAt (·.l) raw) (fieldAt (·.h) raw) (fieldAt fld raw) (m - 1))
+        (raw.getD (m - 1) default)) key := by
+    intro key
+    unfold Ctx.lastReading
+    by_cases h0 : m = 0
+    · have : done = [] := List.eq_nil_of_length_eq_zero (by omega)
+      rw [this, if_pos h0]; rfl
+    · rw [if_neg h0, List.getLast?_eq_getElem?, hdl, hdone (m - 1) (by omega)]
+  -- the bare columns
+  have hfield : ∀ (key : String) (f : Candle K → Num K), NoDot key → key ∈ Candle.attrNames →
+      (∀ c : Candle K, c.attr key = some (.num (f c))) → ∀ j : Nat, j ≤ m →
+      ({ cs := done ++ [c], i := done.length, name := nm } : Ctx K).reading key (some (j : Int))
+        = .ok (.num (f (raw.getD j default))) := by
+    intro key f hd hmem hat j hj
+    by_cases hjm : j < m
+    · rw [hrd c nm key j hjm, stochApp_attr nm n key hd hmem, readingByCandle_attr key hd _ _ (hat _)]
+    · have : j = m := by omega
+      subst this
+      rw [hrm c nm key, readingByCandle_attr key hd _ _ (hat _), hcd]
+  have hper : ({ cs := done ++ [c], i := done.length, name := nm } : Ctx K).readingPeriod (p : Int) input
+      = decide (p ≤ m + 1) := by
+    rw [Ctx.readingPeriod_col _ input m (fun j => .num (fld (raw.getD j default))) hiI (hlen c)
+      (hfield input fld hin.1 hin.2 hattr) p (by omega)]
+    simp
+  unfold stochVal stochR
+  by_cases h1 : m + 1 < p
+  · -- the window is not full
+    have : ¬ p ≤ m + 1 := by omega
+    rw [hper]
+    simp only [this, decide_false, Bool.false_eq_true, if_false, pym_pure, pym_bind_ok]
+    unfold stRow
+    rw [if_pos h1]
+  · have hpm : p ≤ m + 1 := by omega
+    rw [hper]
+    simp only [hpm, decide_true, if_true]
+    -- the raw value
+    have hst := stochSt_eq ({ cs := done ++ [c], i := done.length, name := nm } : Ctx K) p input (by omega)
+      (fun k => (raw.getD (m + 1 - p + k) default).l) (fun k => (raw.getD (m + 1 - p + k) default).h) (fld c)
+      (by
+        intro j hj
+        have e : ((done.length : Nat) : Int) + 1 - (p : Int) + (j : Int) = ((m + 1 - p + j : Nat) : Int) := by omega
+        show ({ cs := done ++ [c], i := done.length, name := nm } : Ctx K).reading "low"
+          (some (((done.length : Nat) : Int) + 1 - (p : Int) + (j : Int))) = _
+        rw [e]
+        exact hfield "low" (·.l) noDot_low (by decide) (fun _ => rfl) _ (by omega))
+      (by
+        intro j hj
+        have e : ((done.length : Nat) : Int) + 1 - (p : Int) + (j : Int) = ((m + 1 - p + j : Nat) : Int) := by omega
+        show ({ cs := done ++ [c], i := done.length, name := nm } : Ctx K).reading "high"
+          (some (((done.length : Nat) : Int) + 1 - (p : Int) + (j : Int))) = _
+        rw [e]
+        exact hfield "high" (·.h) noDot_high (by decide) (fun _ => rfl) _ (by omega))
+      (by rw [Ctx.reading_cur done c [] nm, readingByCandle_attr input hin.1 _ _ (hattr _)])
+    have hste : stochOf (fld c).toF (rmin (p - 1) (fun k => (raw.getD (m + 1 - p + k) default).l.toF))
+        (rmax (p - 1) (fun k => (raw.getD (m + 1 - p + k) default).h.toF))
+        = stExact p (fieldAt (·.l) raw) (fieldAt (·.h) raw) (fieldAt fld raw) m := by
+      unfold stExact fieldAt
+      rw [hcd]
+    rw [hste] at hst
+    rw [hst]
+    simp only [pym_bind_ok, pym_pure]
+    generalize hS : stExact p (fieldAt (·.l) raw) (fieldAt (·.h) raw) (fieldAt fld raw) = S at *
+    have hno : dlookup (nm ++ "_data") c.inds = none := by rw [hc.1]; rfl
+    -- `%K`
+    have hk := sma_on_col
+      ({ cs := done ++ [setKey true (nm ++ "_data") (sdict [("stoch", sc (Num.flt (S m)))]) c], i := done.length,
+         name := nm ++ "_k" } : Ctx K) (nm ++ "_data.stoch") m sk (p - 1) (stochTK p sk) defaultRound S
+      hiI (hlen _) hsk (by unfold stochTK; omega) (by unfold stochTK; omega)
+      (by
+        intro j hj
+        by_cases hjm : j < m
+        · rw [hrd _ _ _ j hjm, stochApp_field nm n hn _ "stoch" hn.dotS _ _ (hpl j (by omega))]
+          unfold stRow
+          by_cases hjp : j + 1 < p
+          · rw [if_pos hjp, if_pos (by omega)]
+          · rw [if_neg hjp, if_neg (by omega), hS]
+            exact congrArg Except.ok (nested_stoch2 (F := K) _ _)
+        · have : j = m := by omega
+          subst this
+          rw [hrm, rbc_data_field _ "stoch" _ hn.dotS c hno, if_neg (by omega)]
+          exact congrArg Except.ok (nested_stoch1 (F := K) _))
+      (by
+        show ({ cs := done ++ [_], i := done.length, name := nm ++ "_k" } : Ctx K).prevReading (nm ++ "_k") = _
+        rw [Ctx.prevReading_append_cons done _ [] _ _, hlast]
+        by_cases h0 : m = 0
+        · rw [if_pos h0, if_pos (by omega)]
+        · rw [if_neg h0, stochApp_k nm n hn _ _ (hpl _ (by omega))]
+          unfold stRow
+          by_cases hjp : m - 1 + 1 < p
+          · rw [if_pos hjp, if_pos (by unfold stochTK; omega)]
+          · rw [if_neg hjp]
+            show Except.ok (Val.s (stKSc p sk (fieldAt (·.l) raw) (fieldAt (·.h) raw) (fieldAt fld raw) (m - 1))) = _
+            unfold stKSc stKStored
+            rw [hS]
+            by_cases hmt : m ≤ stochTK p sk
+            · rw [if_pos hmt, if_pos (by omega)]
+            · rw [if_neg hmt, if_neg (by omega)])
+    obtain ⟨k, hk1, hk2⟩ := hk
+    have hk3 : k.roundBy defaultRound
+        = .s (stKSc p sk (fieldAt (·.l) raw) (fieldAt (·.h) raw) (fieldAt fld raw) m) := by
+      rw [hk2]
+      unfold stKSc stKStored
+      rw [hS]
+      by_cases hmt : m < stochTK p sk
+      · rw [if_pos hmt, if_pos hmt]
+      · rw [if_neg hmt, if_neg hmt]
+    -- `%D`
+    generalize hKS : stKSc p sk (fieldAt (·.l) raw) (fieldAt (·.h) raw) (fieldAt fld raw) m = ks at hk3
+    have hd := sma_on_col
+      ({ cs := done ++ [setKey true (nm ++ "_data") (sdict [("stoch", sc (Num.flt (S m))), ("k", ks)]) c],
+         i := done.length, name := nm ++ "_d" } : Ctx K) (nm ++ "_data.k") m sl (stochTK p sk) (stochTD p sk sl)
+      defaultRound (stKStored p sk (fieldAt (·.l) raw) (fieldAt (·.h) raw) (fieldAt fld raw))
+      hiI (hlen _) hsl (by unfold stochTK stochTD; omega) (by unfold stochTD; omega)
+      (by
+        intro j hj
+        by_cases hjm : j < m
+        · rw [hrd _ _ _ j hjm, stochApp_field nm n hn _ "k" hn.dotK _ _ (hpl j (by omega))]
+          unfold stRow
+          by_cases hjp : j + 1 < p
+          · rw [if_pos hjp, if_pos (by unfold stochTK; omega)]
+          · rw [if_neg hjp]
+            show Except.ok ((sdict [_, _] : Val K).nested "k") = _
+            rw [nested_k2]
+            unfold stKSc
+            by_cases hjt : j < stochTK p sk
+            · rw [if_pos hjt, if_pos hjt]
+            · rw [if_neg hjt, if_neg hjt]
+        · have : j = m := by omega
+          subst this
+          rw [hrm, rbc_data_field _ "k" _ hn.dotK c hno, nested_k2, ← hKS]
+          unfold stKSc
+          by_cases hjt : j < stochTK p sk
+          · rw [if_pos hjt, if_pos hjt]
+          · rw [if_neg hjt, if_neg hjt])
+      (by
+        show ({ cs := done ++ [_], i := done.length, name := nm ++ "_d" } : Ctx K).prevReading (nm ++ "_d") = _
+        rw [Ctx.prevReading_append_cons done _ [] _ _, hlast]
+        by_cases h0 : m = 0
+        · rw [if_pos h0, if_pos (by omega)]
+        · rw [if_neg h0, stochApp_d nm n hn _ _ (hpl _ (by omega))]
+          unfold stRow
+          by_cases hjp : m - 1 + 1 < p
+          · rw [if_pos hjp, if_pos (by unfold stochTD; omega)]
+          · rw [if_neg hjp]
+            show Except.ok (Val.s (stDSc p sk sl (fieldAt (·.l) raw) (fieldAt (·.h) raw) (fieldAt fld raw) (m - 1))) = _
+            unfold stDSc stDStored
+            by_cases hmt : m ≤ stochTD p sk sl
+            · rw [if_pos hmt, if_pos (by omega)]
+            · rw [if_neg hmt, if_neg (by omega)])
+    obtain ⟨d, hd1, hd2⟩ := hd
+    have hd3 : d.roundBy defaultRound
+        = .s (stDSc p sk sl (fieldAt (·.l) raw) (fieldAt (·.h) raw) (fieldAt fld raw) m) := by
+      rw [hd2]
+      unfold stDSc stDStored
+      by_cases hmt : m < stochTD p sk sl
+      · rw [if_pos hmt, if_pos hmt]
+      · rw [if_neg hmt, if_neg hmt]
+    unfold stochVal2
+    rw [hk1]
+    simp only [pym_bind_ok, hk3, toScalar_s]
+    rw [hd1]
+    simp only [pym_bind_ok, pym_pure, hd3, toScalar_s]
+    unfold stRow
+    rw [if_neg h1, ← hS, hKS]
+
 end Numeric
 end Hex
